@@ -1,6 +1,7 @@
 package cli
 
 import (
+	"bytes"
 	"fmt"
 	"net/http"
 	"strings"
@@ -47,10 +48,14 @@ type RunResult struct {
 	Leaked         []string
 	Requests       []ReqLog
 	SecondValue    bool // a second value could be received from Wait()
-	CloseHung      bool // a Close() call did not return within 5 s
-	Idle           bool // closed by the harness because nothing happened for RunOpts.MaxIdle
-	Stopped        bool // the harness stopped the run through RunOpts.Stop
-	Wall           time.Duration
+	// ChangedAfterDelivery counts units whose data, kept by the consumer as delivered, no longer
+	// equals what it was inside the callback
+	ChangedAfterDelivery int
+	ChangedExample       string
+	CloseHung            bool // a Close() call did not return within 5 s
+	Idle                 bool // closed by the harness because nothing happened for RunOpts.MaxIdle
+	Stopped              bool // the harness stopped the run through RunOpts.Stop
+	Wall                 time.Duration
 }
 
 // RunOpts configures a client execution.
@@ -134,6 +139,28 @@ func RunClient(o RunOpts) *RunResult {
 	var mu sync.Mutex
 	waited := false
 	delivered := 0
+	// the slices handed to the callbacks, kept as they were given (a consumer may keep them)
+	type retainedUnit struct {
+		orig, cp [][]byte
+		track, n int
+	}
+	var retained []retainedUnit
+	defer func() {
+		mu.Lock()
+		defer mu.Unlock()
+		for _, r := range retained {
+			same := len(r.orig) == len(r.cp)
+			for k := 0; same && k < len(r.cp); k++ {
+				same = bytes.Equal(r.orig[k], r.cp[k])
+			}
+			if !same {
+				res.ChangedAfterDelivery++
+				if res.ChangedExample == "" {
+					res.ChangedExample = fmt.Sprintf("track %d unit %d", r.track, r.n)
+				}
+			}
+		}
+	}()
 	var c *gohlslib.Client
 	closeOnce := sync.Once{}
 	doClose := func() {
@@ -203,6 +230,7 @@ func RunClient(o RunOpts) *RunResult {
 					cp[k] = append([]byte{}, data[k]...)
 				}
 				res.Units[i] = append(res.Units[i], Delivered{NoDTS: noDTS, PTS: pts, DTS: dts, Data: cp, Abs: abs, AbsOK: ok, At: time.Since(t0), ReqsSeen: reqsSeen()})
+				retained = append(retained, retainedUnit{orig: data, cp: cp, track: i, n: len(res.Units[i]) - 1})
 				delivered++
 				d := delivered
 				mu.Unlock()
